@@ -48,7 +48,7 @@ def _attempt(inp: Dict[str, Any]) -> Dict[str, Any]:
                 if "mult" in inp:
                     mu = np.array(inp["mult"], dtype=float)
                 if inp.get("entry", "full") == "full":
-                    r = esh.run(s, x, sp, charges=ch, mult=(mu if inp.get("uhf") else None))
+                    r = esh.run(s, x, sp, charges=ch, mult=(mu if inp.get("uhf") else None), active=inp.get("active_tensor"))
                 else:
                     # the other public entry points: the driver without forces, and the energy class used directly (as training scripts do)
                     from seqm.basics import Energy
@@ -61,6 +61,8 @@ def _attempt(inp: Dict[str, Any]) -> Dict[str, Any]:
                     if inp.get("uhf"):
                         kwm["mult"] = torch.as_tensor(mu)
                     mol = Molecule(Constants(), spc, torch.as_tensor(x), torch.as_tensor(s), **kwm)
+                    if "active_tensor" in inp:
+                        mol.active_state = torch.as_tensor(np.asarray(inp["active_tensor"]), dtype=torch.int64)
                     if inp["entry"] == "no_force":
                         Electronic_Structure(spc)(mol, do_force=False)
                         r = {"Etot": mol.Etot.detach().numpy()}
@@ -161,6 +163,10 @@ def gen_cases(ctx: Ctx):
     cases.append(("reject", {"kind": "es", "names": ["ch2o", "ch2o"], "charge": [2, 0], "excited": {"n_states": 2, "method": "rpa"}, "precondition": "hetero_rpa_charge", "expect": R}))
     # 6 excited active state without settings
     cases.append(("reject", {"kind": "es", "names": ["h2o"], "active_state": 1, "precondition": "active_state_needs_settings", "expect": R}))
+    # ... also when the request is a per-molecule tensor in which only SOME members of the batch ask for an excited surface (seed C18_J: the guard
+    # rewritten as "no member is in the ground state" accepted these and returned ground-state numbers for the excited members)
+    for act in ([0, 1], [2, 0], [1, 2]):
+        cases.append(("reject", {"kind": "es", "names": ["h2o", "h2o"], "active_tensor": list(act), "precondition": "active_state_needs_settings_mixed", "expect": R}))
     # 7 unknown COM mode
     cases.append(("reject", {"kind": "remove_com", "mode": "rotational", "precondition": "remove_com_mode", "expect": R}))
     cases.append(("reject", {"kind": "remove_com", "mode": "angular", "precondition": "remove_com_mode", "expect": "accept"}))
@@ -246,7 +252,7 @@ def _encode(inp: Dict[str, Any]):
     exc = inp.get("excited")
     xm = 0 if not exc else {"cis": 1, "tda": 2, "rpa": 3}.get(exc.get("method", "cis"), 4)
     toks = ["validate_class", int(bool(inp.get("uhf"))), methods.get(inp.get("method", "AM1"), 1), int(bool((inp.get("sp2") or [False])[0])), int(inp.get("converger", [1])[0]), 0,
-            xm, int(bool(exc and "n_states" in exc)), int(inp.get("active_state", 0)), int(bool(inp.get("analytical"))), 0, len(inp["names"])]
+            xm, int(bool(exc and "n_states" in exc)), int(max(inp["active_tensor"]) > 0 if "active_tensor" in inp else inp.get("active_state", 0)), int(bool(inp.get("analytical"))), 0, len(inp["names"])]
     for i, nm in enumerate(inp["names"]):
         z = esh.GEOMS[nm][0]
         ch = int(inp["charge"][i]) if "charge" in inp else int(esh.CHARGE.get(nm, 0))
